@@ -6982,6 +6982,11 @@ impl RelationalEngine {
             .collect();
         let matching_rows = matching_rows?;
 
+        // Verification hook (compiled only with `--cfg neumann_verif`): the rows have been read,
+        // their locks are not yet held.
+        #[cfg(neumann_verif)]
+        tensor_store::verif::yield_point("relational.tx_update.after_scan", table);
+
         // Acquire locks on all matching rows
         let rows_to_lock: Vec<(String, u64)> = matching_rows
             .iter()
@@ -7103,6 +7108,11 @@ impl RelationalEngine {
             })
             .collect();
         let to_delete = to_delete?;
+
+        // Verification hook (compiled only with `--cfg neumann_verif`): the rows have been read,
+        // their locks are not yet held.
+        #[cfg(neumann_verif)]
+        tensor_store::verif::yield_point("relational.tx_delete.after_scan", table);
 
         // Acquire locks on all rows to delete
         let rows_to_lock: Vec<(String, u64)> = to_delete
